@@ -1,6 +1,8 @@
 import Tmv.Lemmas.Sign
 import Tmv.Lemmas.SignNode
 import Tmv.Lemmas.SignCons
+import Tmv.Lemmas.SignWal
+import Tmv.Lemmas.ConsReplay
 /-! # C04 — no crash or restart can make a validator sign conflicting messages
 
 Model: `Tmv.Sign` (`privval/file.go` FilePV + `libs/tempfile.WriteFileAtomic` as a micro-step
@@ -227,8 +229,10 @@ event list — inputs of any kind, and crashes
   (`crashInInput`; k = 1..4 before the sign-state rename, 5 after it and before the signature is
   returned = before the own message reaches the WAL),
 * while a surviving record is replayed (`crashInReplay`), any number of crashes in a row,
-each with ANY number `keep` of surviving unsynced WAL records (C15: the survivors are whole records,
-a prefix of the written ones, containing every synced one) —
+each followed by a restart over ANY list `w` of surviving WAL records — no assumption about the log
+at all, so in particular for what the real WAL returns after recovery (C15
+`durable_returned_history`: every fsynced record, a sublist of what was written, in order; see
+`replay_reissues_requests_real_wal` for the clause that does need it) —
 two signatures the key released for one height/round/step are over the same message: same block, and
 the later one is the earlier one reused (same timestamp and signature). Nothing is assumed about
 the consensus model, the WAL or the replay: the signer alone enforces it. -/
@@ -384,6 +388,104 @@ theorem replay_restores (e : Node04.Env) (c : Cons.Cfg) (lss0 : Option (Nat × N
       exact ih _
   exact key _ w
 
+/-- **Replay with the node's own messages as WAL records.** In the real WAL the node's own proposal,
+block part and votes are records (`msgInfo` with an empty peer id); `catchupReplay` feeds every
+record through `handleMsg`/`handleTimeout` (`Node04.replayRecs`: own messages come from the record,
+the internal queue is not touched) while the signer — already ahead of the replayed prefix —
+refuses the signing attempts made on the way or reuses its stored signature, and the errors are
+ignored (`replayMode`). `Node04.runLog c s is` is the record list the receive routine writes when
+the node (state `s`) handles the external inputs `is`: each input followed by the own messages
+`Cons.drain` takes off the queue. Then for ANY replaying state `s'` with the same round state as
+`s` — any last-sign state (so: whatever the signer answers), any outputs, any queue — replaying
+that record list yields exactly the round state of `Cons.run c s is`: height-local round, step,
+locked round/block, valid round/block, proposal, proposal block and parts, commit round, vote sets,
+proposer rotation, decision (`Cons.er` erases only `lss`, `out`, `queue`). The round state does not
+depend on which of the two — the queue of the running node or the WAL record — supplies the own
+message. With `replay_restores` (external inputs) this is C15's round-state clause for the real
+record format. -/
+theorem replay_with_own_records_equiv (c : Cons.Cfg) (s s' : Cons.NodeState) (hs : Cons.er s = Cons.er s')
+    (is : List Cons.Input) :
+    Cons.er (Cons.run c s is) = Cons.er (Node04.replayRecs c s' (Node04.runLog c s is)) :=
+  Cons.run_replay is hs
+
+/-- the same, field by field, for a replay that starts from the initial round state with an
+arbitrary signer state `L` (the state file after the crash) -/
+theorem replay_with_own_records_fields (c : Cons.Cfg) (lss0 L : Option (Nat × Nat × Cons.Payload))
+    (is : List Cons.Input) :
+    let orig := Cons.run c { Cons.NodeState.init with lss := lss0 } is
+    let rep := Node04.replayRecs c { Cons.NodeState.init with lss := L }
+      (Node04.runLog c { Cons.NodeState.init with lss := lss0 } is)
+    orig.round = rep.round ∧ orig.step = rep.step ∧ orig.lockedRound = rep.lockedRound ∧
+      orig.lockedBlock = rep.lockedBlock ∧ orig.validRound = rep.validRound ∧ orig.validBlock = rep.validBlock ∧
+      orig.proposal = rep.proposal ∧ orig.proposalBlock = rep.proposalBlock ∧ orig.votes = rep.votes ∧
+      orig.commitRound = rep.commitRound ∧ orig.decided = rep.decided := by
+  intro orig rep
+  have h : Cons.er orig = Cons.er rep := Cons.run_replay is rfl
+  exact ⟨Cons.er_round h, Cons.er_step h, Cons.er_lockedRound h, Cons.er_lockedBlock h, Cons.er_validRound h,
+    Cons.er_validBlock h, Cons.er_proposal h, Cons.er_proposalBlock h, Cons.er_votes h, Cons.er_commitRound h,
+    Cons.er_decided h⟩
+
+/-- replaying ANY surviving record list (a crash may cut the log inside a step): the round state
+reached does not depend on the signer state, outputs or queue of the replaying node -/
+theorem replay_signer_independent (c : Cons.Cfg) (w : List Node04.Rec) (s s' : Cons.NodeState)
+    (hs : Cons.er s = Cons.er s') :
+    Cons.er (Node04.replayRecs c s w) = Cons.er (Node04.replayRecs c s' w) :=
+  Cons.replayRecs_cong w hs
+
+/-- **Flush before sign, with the REAL WAL (C15's byte-level model, no list hypothesis).** The log is
+`Tmv.Wal.Group` (40 KB buffered head file, `FlushAndSync`, rotation, the two decoders, crash cuts,
+reopen, repair, the catch-up loop). The node's first incarnation starts on an empty log `g0`,
+handles the inputs `pre` (`walOps`: each written before handled, flushed+fsynced before a signing
+request), writes input `i` and — because handling `i` issues signing requests — flushes and fsyncs
+(`g1 = flushAndSync gb`). Then ANYTHING C15's history theorem covers may happen (`ops2`: further
+writes, rotations, any number of crashes with any cut of the unsynced tail, also inside an unfinished
+fsync, reopen, repair, recovery; no pruning of these files). Whatever a reader then returns (`R`,
+`Tmv.Wal.readAll`), decoded, replay over it re-issues at record `pre.length` exactly the requests
+the node issued when it handled `i` before the crash — or a checksum collision is exhibited
+(`Props.C15.durable_returned_history`). Hypotheses: the record encoding is decodable and within the
+WAL's size limit (`ValidRec`), the writes of `walOps` succeeded (`Steps`). -/
+theorem replay_reissues_requests_real_wal {S I : Type} (k : SignNode.Core S I)
+    (P : Wal.Params) (G : Wal.Good P) (Sz dhl dtl kk : Nat)
+    (enc : I → Bytes) (dec : Bytes → Option I) (hdec : ∀ a, dec (enc a) = some a)
+    (g0 ga gb g' : Wal.Group) (hi : Wal.HInv P g0 []) (hempty : Wal.wlog P g0 = [])
+    (pre : List (I × Int)) (i : I) (ops2 : List Wal.HOp)
+    (st1 : Wal.Steps P Sz dhl dtl kk g0 (SignNode.walOps enc k k.init pre) ga)
+    (hv : Wal.ValidRec P (enc i)) (hw : Wal.write P Sz ga (enc i) = some gb)
+    (st2 : Wal.Steps P Sz dhl dtl kk (Wal.flushAndSync gb) ops2 g') (hnp : ops2.any Wal.HOp.isPrune = false) :
+    (∃ R e, (Wal.readAll P g').1 = (R, e) ∧
+        SignNode.reqsAt k (R.filterMap dec) pre.length =
+          (k.step (SignNode.runCore k k.init (pre.map (·.1))) i).2) ∨ Wal.Collision P := by
+  have stA : Wal.Steps P Sz dhl dtl kk g0 (SignNode.walOps enc k k.init pre ++ [Wal.HOp.write (enc i)]) gb :=
+    Wal.Steps.append st1 (Wal.Steps.cons (Wal.Step.write hv hw) Wal.Steps.nil)
+  have hws : ∀ op ∈ SignNode.walOps enc k k.init pre ++ [Wal.HOp.write (enc i)],
+      (∃ d, op = .write d) ∨ op = .sync := by
+    intro op h
+    rcases List.mem_append.1 h with h | h
+    · exact SignNode.walOps_ws enc k _ pre op h
+    · simp at h; exact Or.inl ⟨_, h⟩
+  obtain ⟨_, hwl⟩ := SignNode.steps_ws_wlog P G Sz dhl dtl kk _ hws g0 gb [] hi stA
+  rcases SignNode.synced_log_is_prefix_of_reader P G Sz dhl dtl kk _ ops2 g0 gb g' [] hi stA st2 hnp with
+    ⟨R, e, h1, _, ⟨rest, hR⟩, _⟩ | hc
+  · left
+    refine ⟨R, e, h1, ?_⟩
+    have hlog : Wal.wlog P gb = pre.map (fun p => enc p.1) ++ [enc i] := by
+      rw [hwl, hempty, List.nil_append, List.flatMap_append, SignNode.walOps_recs]
+      simp [Wal.HOp.recs]
+    have hfm : ∀ l : List I, (l.map enc).filterMap dec = l := by
+      intro l
+      induction l with
+      | nil => rfl
+      | cons a l ih => simp [hdec, ih]
+    have hRd : R.filterMap dec = pre.map (·.1) ++ [i] ++ rest.filterMap dec := by
+      rw [← hR, hlog, List.filterMap_append, List.filterMap_append]
+      have : pre.map (fun p => enc p.1) = (pre.map (·.1)).map enc := by simp
+      rw [this, hfm]
+      simp [hdec]
+    rw [hRd]
+    have := SignNode.reqsAt_mid k (pre.map (·.1)) (rest.filterMap dec) i
+    simpa using this
+  · exact Or.inr hc
+
 /-! ### the driver's `call` (one op line) is a run of the machine, so every op-line history the
 correspondence stream exercises is covered by the theorems above -/
 
@@ -476,6 +578,9 @@ example : Node04.EnvOK exEnv :=
    fun b => by simp [exEnv, bidIsZero],
    fun b => by simp [exEnv]⟩
 example : Node04.Good exEnv (genesis : LSS SB) := Or.inl (by decide)
+/-- `replay_with_own_records_equiv` is not vacuous: handling the first timeout the single validator
+writes the timeout and four own records (proposal, part, prevote, precommit) -/
+example : (Node04.runLog exCfg .init [.timeout 0 .newHeight]).length = 5 := by decide
 /-- hypothesis of `composed_step_refines`: handling the first timeout does not panic; the single
 validator releases proposal, prevote and precommit while handling it -/
 example : (Node04.consStep exEnv exCfg .init (init (genesis : LSS SB)) (.timeout 0 .newHeight) 10).1.halted = false ∧
@@ -486,7 +591,8 @@ after another crash the replayed proposal request is below the state file and re
 journal does not grow -/
 def exComposed : Node04.St SB :=
   Node04.run exEnv exCfg id (Node04.start genesis)
-    [.crashInInput (.timeout 0 .newHeight) 10 0 5 0, .replayNext 20, .crash 0, .replayNext 30]
+    [.crashInInput (.timeout 0 .newHeight) 10 0 5 [.timeout 0 .newHeight], .replayNext 20,
+     .crash [.timeout 0 .newHeight], .replayNext 30]
 example : exComposed.sg.rel.map (fun r => (hrsOf r.sb, r.sb.ts, r.req.ts)) =
     [((1, 0, 3), 20, 20), ((1, 0, 2), 20, 20), ((1, 0, 1), 10, 20)] := by decide
 
